@@ -433,11 +433,13 @@ def oracle_c08(h: History):
         init = r.get("batch_resolved") or {}
         states = sorted(init)
         n = len(next(iter(init.values()))) if init else 0
-        if n > 400:
-            continue  # large panels belong to C04; membership histories use small batches
+        if n > 400 and not deterministic:
+            continue  # large stochastic panels belong to C04
         cols = sorted(c for c in fd["columns"])
         per = [frame_rows(fd, t)[0] for t in range(T)]
-        for i in range(n):
+        # large batches: the first and last agents and an evenly spaced sample
+        idxs = range(n) if n <= 400 else sorted({*range(30), *range(n - 60, n), *(int(x) for x in np.linspace(0, n - 1, 40))})
+        for i in idxs:
             agent = tuple((s, float(init[s][i])) for s in states)
             base_key = (mid, op["params"], op.get("vparams"), tuple(op.get("targets") or ()), agent)
             horizon = T if deterministic else 1
